@@ -497,4 +497,88 @@ theorem unknownMul_new_rel (B : Nat) (hB : B ≤ U64_MAX) (l : List Val) (x : Na
         rw [← hm]
         simpa [Unknown.sum, sizesOf] using hlater
 
+/-! ### opcode decoding and the normal form of `opUnknown` -/
+
+theorem cf_nat : ∀ n, n < 256 → (n &&& 0xc0) >>> 6 = n / 64 := by decide +kernel
+
+theorem u32FromU8_dropLast (op : Bytes) (h : op ≠ []) :
+    u32FromU8 (op.take (op.length - 1)) = if op.length > 5 then none else some (multiplier op) := by
+  have hd : op.take (op.length - 1) = op.dropLast := (List.dropLast_eq_take).symm
+  rw [hd]
+  have hl : op.dropLast.length = op.length - 1 := List.length_dropLast
+  have hpos : 0 < op.length := List.length_pos_iff.mpr h
+  unfold multiplier u32FromU8 u32FromU8Impl
+  cases hdl : op.dropLast with
+  | nil =>
+    rw [hdl] at hl; simp at hl
+    have : ¬ op.length > 5 := by omega
+    simp [this, beNat]
+  | cons b0 t =>
+    rw [hdl] at hl
+    simp only [Bool.false_and, Bool.false_eq_true, if_false]
+    by_cases h5 : op.length > 5
+    · simp only [List.length_cons] at hl
+      simp [h5]; omega
+    · simp only [List.length_cons] at hl
+      simp [h5]; omega
+
+/-- the model's base computation, per cost function -/
+def implBase (cf : Nat) (nm : Bool) (B : Nat) (l : List Val) : Except Err Nat :=
+  match cf with
+  | 1 => unknownArith nm B l Gen.ARITH_BASE_COST 0
+  | 2 => unknownMul nm B
+           (if nm then Gen.NEW_MUL_SQUARE_COST_PER_BYTE_DIVIDER else Gen.MUL_SQUARE_COST_PER_BYTE_DIVIDER)
+           l (if nm then Gen.NEW_MUL_BASE_COST else Gen.MUL_BASE_COST) 0 true
+  | 3 => unknownConcat B l Gen.CONCAT_BASE_COST
+  | _ => .ok 1
+
+/-- what `op_unknown` does with the base cost: `assert!(cost > 0)`, `check_cost`, the multiplication
+(`checked_mul` in the new model, `wrapping_mul` before), the 32-bit cap -/
+def implTail (nm : Bool) (mult B cost : Nat) (c : Ctr) : Except Err (Nat × Val × Ctr) :=
+  if cost == 0 then .error (.Panic "assert!(cost > 0)")
+  else
+    match checkCost cost B with
+    | .error e => .error e
+    | .ok () =>
+      let total : Except Err Nat :=
+        if nm then ckMul cost (mult + 1) else .ok ((cost * (mult + 1)) % 2 ^ 64)
+      match total with
+      | .error e => .error e
+      | .ok cost' => if cost' > 2 ^ 32 - 1 then .error .Invalid else .ok (cost', Val.nil, c)
+
+theorem costFunction_lt (op : Bytes) : costFunction op < 4 := by
+  unfold costFunction
+  cases op.getLast? with
+  | none => simp
+  | some x => have := x.toNat_lt; simp only [Option.map_some, Option.getD_some]; omega
+
+theorem opUnknown_eq (op : Bytes) (flags B : Nat) (args : Val) (c : Ctr) :
+    opUnknown op flags B args c =
+      if reserved op then .error .Reserved
+      else if op.length > 5 then .error .Invalid
+      else
+        match implBase (costFunction op) (newModel flags) B (argList args) with
+        | .error e => .error e
+        | .ok cost => implTail (newModel flags) (multiplier op) B cost c := by
+  unfold opUnknown
+  change (if reserved op = true then _ else _) = _
+  by_cases hr : reserved op
+  · simp only [hr, if_true]
+  · have hne : op ≠ [] := by intro h; subst h; simp [reserved] at hr
+    simp only [hr, Bool.false_eq_true, if_false, u32FromU8_dropLast op hne]
+    by_cases h5 : op.length > 5
+    · simp [h5]
+    · simp only [h5, if_false]
+      have hcf : ((op.getLast?.map UInt8.toNat).getD 0 &&& 0xc0) >>> 6 = costFunction op := by
+        unfold costFunction
+        apply cf_nat
+        cases op.getLast? with
+        | none => simp
+        | some x => simpa using x.toNat_lt
+      rw [hcf]
+      have hlt := costFunction_lt op
+      generalize costFunction op = cf at hlt
+      have : cf = 0 ∨ cf = 1 ∨ cf = 2 ∨ cf = 3 := by omega
+      rcases this with rfl | rfl | rfl | rfl <;> simp only [implBase, implTail] <;> rfl
+
 end Clvm.Interp
